@@ -18,6 +18,7 @@ func init() {
 	verifRegister("VerifV1Proc", VerifV1Proc)
 	verifRegister("VerifV1FanoutOrder", VerifV1FanoutOrder)
 	verifRegister("VerifV1BatchedAcks", VerifV1BatchedAcks)
+	verifRegister("VerifV1AckGap", VerifV1AckGap)
 	verifRegister("VerifV1NackOrder", VerifV1NackOrder)
 }
 
@@ -129,6 +130,29 @@ func VerifV1NackOrder() {
 	w.mu.Unlock()
 	verifObserve("acked", K)
 	verifCover("clean")
+}
+
+// VerifV1AckGap (C01/C09): a destination whose multi-ack response leaves one
+// written record out (it was never confirmed) while confirming later ones. The
+// engine may stop, but it must not acknowledge the unconfirmed record to the
+// source (oracle in the fake source), and it must not hang.
+func VerifV1AckGap() {
+	K := verifParam("K", 3)
+	p := buildPipeline(sCfg{K: K, M: 1, dlqSize: 0, dlqTh: 0, stopAfter: K, ackOnly: true, batchAcks: true, ackGap: true})
+	p.start()
+	select {
+	case <-p.w.src.served:
+	case <-p.ctx.Done():
+	}
+	_ = p.src.Stop(p.ctx, nil)
+	err := p.wait()
+	p.w.checkEnd(false)
+	verifObserve("gap", K)
+	if err == nil {
+		verifCover("clean")
+	} else {
+		verifCover("stopped")
+	}
 }
 
 // VerifV1BatchedAcks (C09): a destination whose ack responses cover several
